@@ -86,6 +86,27 @@ def make_request(kind, rid, ci, j, long_one=None):
 
 
 def run_case(c):
+    """(wrapper) notes, at the standard library's accept call, which client ports the manager's
+    listening socket(s) ever handed to the application."""
+    import socketserver
+    accepted = set()
+    real_get = socketserver.TCPServer.get_request
+
+    def noting_get(self):
+        r = real_get(self)
+        try:
+            accepted.add(r[1][1])
+        except Exception:   # noqa
+            pass
+        return r
+    socketserver.TCPServer.get_request = noting_get
+    try:
+        return _run_case(c, accepted)
+    finally:
+        socketserver.TCPServer.get_request = real_get
+
+
+def _run_case(c, accepted):
     socket.setdefaulttimeout(None)      # no process-wide socket state carried between cases
     w = mw.default_world()
     w.adv_plan = {"final": "total"}
@@ -175,6 +196,7 @@ def run_case(c):
                     time.sleep(0.05)
                     continue
                 err = None
+                lport = s.getsockname()[1]
                 try:
                     s.sendall(line)
                     f = s.makefile("rb")
@@ -184,15 +206,18 @@ def run_case(c):
                     reply = b""
                 finally:
                     s.close()
-                if reply == b"" and isinstance(err, ConnectionError) and rid not in seen:
-                    # the connection was reset before the manager ever saw the request: with
-                    # more clients connecting at once than the listen queue holds, the kernel
-                    # (SYN cookies, accept queue full) may drop a connection whose request
-                    # spans several segments; as nothing was delivered, connecting again
-                    # cannot execute anything twice
+                if reply == b"" and isinstance(err, ConnectionError) and \
+                        lport not in accepted and rid not in seen:
+                    # the connection was reset without the manager's accept() ever having
+                    # returned it: with more clients connecting at once than the listen queue
+                    # holds, the kernel (SYN cookies, accept queue full) may drop a connection
+                    # whose request spans several segments. Nothing reached the application,
+                    # so connecting again cannot execute anything twice. (A connection the
+                    # manager did accept and then dropped is not retried.)
                     retries[0] += 1
                     reply = None
                     time.sleep(0.05)
+                    t0 = time.time()
                     continue
                 break
             t1 = time.time()
